@@ -91,6 +91,9 @@ func C12(r *core.Run) {
 		for _, e := range enumEntries(c02Tokens, in.MaxTok) {
 			add(strings.Join(e, "") + "\n")
 		}
+		for _, n := range []int{49, 50, 51, 99, 100, 101, 150} {
+			add(strings.Repeat("abcdefghi\"", n/10) + strings.Repeat("z", n%10) + "\n")
+		}
 		for _, t := range []string{`a"@rx b`, `a" \\b`, `"@rx `, `x" \\`, ` a b `, `a$1b`, `^a|b$`, `"`, `\\`, `a"`, `"a`, `" \\" \\`, `"!@rx q" \\`, "id:123456"} {
 			add(t + "\n")
 		}
